@@ -16,6 +16,7 @@ is omitted, former class EmptyTypeList); `requiredMap_fixed`, `emptyTypes_fixed`
 on the former witnesses. Open: DateExampleTrim (`dateTrim_witness`).
 -/
 import KinModel.Lemmas.C03Deep
+import KinModel.Lemmas.C03Normal
 import KinModel.Gen.Descriptors
 namespace KinModel.Marshal
 open KinModel.Gen
@@ -183,109 +184,8 @@ theorem flat_stable (d : Desc) (o : Obj) (k : String) (h : structAgreeWith compa
     back unchanged: every key looks up the same value after the trip, and no key is added. -/
 theorem flat_normal_roundtrip (d : Desc) (o : Obj) (k : String)
     (h : structAgreeWith compat d = true) (hn : normalObjB d o = true) :
-    lookup k (flatRT d o) = lookup k o := by
-  have w := wf_of_agree compat d h
-  rw [flatRT_lookup d o k w.ext w.unm w.asg w.nodupM]
-  simp only [normalObjB, Bool.and_eq_true, List.all_eq_true, Bool.or_eq_true, Bool.not_eq_true',
-    beq_iff_eq] at hn
-  obtain ⟨⟨⟨_, hnd⟩, hreq⟩, hsib⟩ := hn
-  -- a present field value is not a default, so it is stored and written as it is
-  have present : ∀ (f : Field) (v : JV), f ∈ d.fields → lookup f.key o = some v → isDefault f.tc v = false := by
-    intro f v hf hv
-    have := hnd (f.key, v) (lookup_mem f.key v o hv)
-    have hk : fieldByKey d f.key = some f := find_field_of_nodup f d.fields w.nodupTags hf
-    simpa [hk] using this
-  -- a `$ref` key in a kind with the early return means the object is exactly that reference
-  have refOnly : d.refEarly = true → ∀ x, lookup "$ref" o = some x → refTaken d o = true ∧ o = [("$ref", x)] := by
-    intro hre x hx
-    obtain ⟨f, hf, hfk, htc⟩ := w.refField hre
-    have hfm : f ∈ d.fields := List.mem_of_find?_eq_some hf
-    have hdx := present f x hfm (hfk ▸ hx)
-    rw [htc] at hdx
-    have hlen : o.length = 1 := by
-      rcases hsib with h1 | h1
-      · simp [hre, hasKey, hx] at h1
-      · exact h1
-    constructor
-    · unfold refTaken
-      simp only [hre, Bool.true_and, fldVal, hf, hfk, htc, hx]
-      cases x <;> simp_all [isDefault, decode, JV.isNull, JV.isEmptyStr]
-    · match o, hlen, hx with
-      | [(k0, v0)], _, hx =>
-        simp only [lookup] at hx
-        by_cases e : "$ref" = k0
-        · simp only [e, if_true, Option.some.injEq] at hx; simp [← e, hx]
-        · simp [e] at hx
-  cases hr : refTaken d o with
-  | true =>
-    have hre : d.refEarly = true := by
-      unfold refTaken at hr; simp only [Bool.and_eq_true] at hr; exact hr.1
-    obtain ⟨f, hf, hfk, htc⟩ := w.refField hre
-    rw [flatSpec_ref d o k hr]
-    cases hx : lookup "$ref" o with
-    | none =>
-      unfold refTaken at hr
-      simp [hre, fldVal, hf, hfk, htc, hx, decode, zero, JV.isEmptyStr] at hr
-    | some x =>
-      obtain ⟨_, ho⟩ := refOnly hre x hx
-      have hfm : f ∈ d.fields := List.mem_of_find?_eq_some hf
-      have hdx := present f x hfm (hfk ▸ hx)
-      have hval : fldVal d o "Ref" = x := by
-        simp only [fldVal, hf, hfk, hx]; exact decode_of_not_default f.tc x hdx
-      rw [hval, ho]
-      by_cases e : k = "$ref" <;> simp [lookup, e]
-  | false =>
-    cases hfind : d.marsh.find? (fun m => m.key == k) with
-    | none =>
-      rw [flatSpec_none d o k hr hfind]
-      by_cases hc : k ∈ d.dels
-      · simp only [hc, if_true]
-        -- a tag without a write is `$ref` of a kind with the early return
-        have hkt : k ∈ tagKeys d := w.dels ▸ hc
-        have hnm : k ∉ marshKeys d := by
-          intro hm
-          obtain ⟨m, hm1, hm2⟩ := List.mem_map.mp hm
-          have := List.find?_eq_none.mp hfind m hm1
-          simp [hm2] at this
-        rw [w.keysEq] at hnm
-        unfold expectedMarshKeys at hnm
-        cases hre : d.refEarly with
-        | false => simp [hre] at hnm; exact absurd hkt hnm
-        | true =>
-          simp only [hre, if_true, List.mem_filter, not_and, bne_iff_ne, ne_eq, Decidable.not_not] at hnm
-          have hk := hnm hkt
-          subst hk
-          cases hx : lookup "$ref" o with
-          | none => rfl
-          | some x => have := (refOnly hre x hx).1; rw [hr] at this; cases this
-      · simp [hc]
-    | some m =>
-      rw [flatSpec_some d o k m hr hfind]
-      have hmem := List.mem_of_find?_eq_some hfind
-      have hkm : m.key = k := by simpa using List.find?_some hfind
-      obtain ⟨f, hf, hfk, hc⟩ := w.marshOK m hmem
-      have hfm : f ∈ d.fields := List.mem_of_find?_eq_some hf
-      have htc : tcOfGo d m.goName = f.tc := by simp [tcOfGo, hf]
-      have hdel : k ∈ d.dels := hkm ▸ marsh_key_in_dels compat d w m hmem
-      cases hx : lookup k o with
-      | some v =>
-        have hdv := present f v hfm (by rw [hfk, hkm]; exact hx)
-        have hval : fldVal d o m.goName = v := by
-          simp only [fldVal, hf, hfk, hkm, hx]; exact decode_of_not_default f.tc v hdv
-        simp [hval, htc, compat_keeps f.tc m.guard v hc hdv, written_of_not_default f.tc m.guard v hdv]
-      | none =>
-        have hval : fldVal d o m.goName = zero f.tc := by simp [fldVal, hf, hfk, hkm, hx, decode]
-        rw [hval, htc]
-        cases hg : guard f.tc m.guard (zero f.tc) with
-        | false => simp [hdel]
-        | true =>
-          have hal := compat_zero f.tc m.guard hc hg
-          have : k ∈ requiredKeys d := by
-            unfold requiredKeys; rw [← w.required]
-            simp only [alwaysKeys, List.mem_map, List.mem_filter]
-            exact ⟨m, ⟨hmem, hal⟩, hkm⟩
-          have := hreq k this
-          simp [hasKey, hx] at this
+    lookup k (flatRT d o) = lookup k o :=
+  flat_normal_lookup d o k (wf_of_agree compat d h) hn
 
 /-! ## composition over nesting: first level -/
 
@@ -374,6 +274,57 @@ theorem rt_stable_of_table (T : List Desc) (hT : ∀ d ∈ T, d.deepOK = true) (
 theorem rt_stable_partial (n : Nat) (s : Shape) (v v1 : JV) (hc : v.clean = true)
     (h : rt descriptors n s v = .ok v1) : rt descriptors n s v1 = .ok v1 :=
   rt_stable_of_table descriptors table_deepOK n s v v1 hc h
+
+/- Full-strength statement (fails on this tree: open finding F-C03-1, first part of `dateTrim_witness`):
+     rt_normal : normalB descriptors n s v = true → ∃ v1, rt descriptors n s v = .ok v1 ∧ v.same v1 -/
+
+/-- Deep normal-form round trip for any table that satisfies the side conditions: a document in deep normal
+    form (no redundant default, no sibling next to `$ref`, no null entry, distinct keys, required fields
+    present — at every object the shape grammar reaches, spec-side `normalB`) is parsed and serialised without
+    panic or refusal, and what is written is the same JSON as the input: same members under the same keys with
+    the same values at every depth, member order apart (`JV.same`). Exclusion: `JV.clean` (DateExampleTrim). -/
+theorem rt_normal_of_table (T : List Desc) (hT : ∀ d ∈ T, d.deepOK = true) (n : Nat) (s : Shape) (v : JV)
+    (hc : v.clean = true) (hn : normalB T n s v = true) : ∃ v1, rt T n s v = .ok v1 ∧ v.same v1 :=
+  (rt_ninv hT n).ok s v hc hn
+
+/-- … and so for the table of this repository -/
+theorem rt_normal_partial (n : Nat) (s : Shape) (v : JV) (hc : v.clean = true)
+    (hn : normalB descriptors n s v = true) : ∃ v1, rt descriptors n s v = .ok v1 ∧ v.same v1 :=
+  rt_normal_of_table descriptors table_deepOK n s v hc hn
+
+/-- both halves of the property for a normal-form document: the serialised JSON is the input, and parsing and
+    serialising that output again gives exactly the same JSON -/
+theorem rt_normal_and_stable_partial (n : Nat) (s : Shape) (v : JV) (hc : v.clean = true)
+    (hn : normalB descriptors n s v = true) :
+    ∃ v1, rt descriptors n s v = .ok v1 ∧ v.same v1 ∧ rt descriptors n s v1 = .ok v1 := by
+  obtain ⟨v1, h1, h2⟩ := rt_normal_partial n s v hc hn
+  exact ⟨v1, h1, h2, rt_stable_partial n s v v1 hc h1⟩
+
+/-- `same` is not trivial: a changed value, a lost member and an invented member are all excluded -/
+example : ¬ (JV.obj [("a", .num 1 0)]).same (.obj [("a", .num 2 0)]) ∧
+    ¬ (JV.obj [("a", .num 1 0), ("b", .null)]).same (.obj [("a", .num 1 0)]) ∧
+    ¬ (JV.obj [("a", .num 1 0)]).same (.obj [("a", .num 1 0), ("b", .null)]) ∧
+    (JV.obj [("a", .num 1 0), ("b", .null)]).same (.obj [("b", .null), ("a", .num 1 0)]) := by
+  refine ⟨?_, ?_, ?_, ?_⟩
+  · simp [JV.same, sameO, lookup]
+  · simp [JV.same, sameO, lookup]
+  · simp [JV.same, sameO, lookup]
+    exact ⟨"b", by simp⟩
+  · simp [JV.same, sameO, lookup]
+    intro k
+    by_cases h1 : k = "a" <;> by_cases h2 : k = "b" <;> simp [h1, h2]
+
+/-- non-vacuity of `rt_normal_partial`: a nested document (a whole OpenAPI 3 document with a path, an
+    operation, a response, a media type and a schema with properties, an extension and an unknown key) is in
+    deep normal form and in scope -/
+example :
+    let v : JV := .obj [("openapi", .str "3.0.3"), ("info", .obj [("title", .str "t"), ("version", .str "1")]),
+      ("paths", .obj [("/a", .obj [("get", .obj [("responses", .obj [("200", .obj [("description", .str "ok"),
+        ("content", .obj [("application/json", .obj [("schema", .obj [("type", .str "object"), ("x-e", .num 1 0),
+          ("properties", .obj [("p", .obj [("$ref", .str "#/components/schemas/A")]),
+                               ("q", .obj [("type", .arr [.str "string", .str "null"]), ("bogus", .null)])])])])])])])])])]),
+      ("x-top", .arr [.null])]
+    v.clean = true ∧ normalB descriptors 40 (.kind "openapi3.T") v = true := by decide
 
 /-- no reference is invented at any depth: an object that is not a reference (no `$ref` member, or one
     that is not a non-empty string) is not serialised as one (no hypothesis on the input) -/
